@@ -57,28 +57,28 @@ theorem flag_iff_encoding_client_partial (k : Codec) (reg : List String) (c : Cl
     exact encoding_implies_flag_client k reg c cs h n he hn d hd
 
 /-- Server, "if and only if" for NON-EMPTY messages, for every response of the stream (all frames
-    `sendAll` produces), whatever the handler does with SetSendCompressor.
-    `_partial` because of empty messages (F12), the legacy name domain (as for the client), the
-    assumption that nobody registered a compressor under the names "identity"/"", and — the one
-    real exclusion — the combination legacy RPCCompressor + SetSendCompressor("identity"), for
-    which the statement is FALSE in the unchanged code (counterexample below, known finding F19). -/
+    `sendAll` produces), whatever the handler does with SetSendCompressor — including
+    SetSendCompressor("identity") on a server with the legacy RPCCompressor (that combination was
+    defect F34 until /repo 25f0536: the legacy compressor kept being applied under
+    grpc-encoding: identity; SendMsg now drops it when the handler chose an encoding).
+    Still `_partial` because of empty messages (reading F12), the legacy name domain (as for the
+    client) and the assumption that nobody registered a compressor under the names "identity"/"". -/
 theorem flag_iff_encoding_server_partial (k : Codec) (reg : List String) (s : Server) (h : ReqHdr)
     (ss : SrvStream) (o : Option String) (ho : serverOpen reg s h = .ok ss)
     (hreg : identity ∉ reg ∧ "" ∉ reg)
-    (hleg : ∀ t, s.legacyComp = some t → nonIdentity t = true)
-    (hx : s.legacyComp = none ∨ o ≠ some identity) (ds : List Bytes) :
+    (hleg : ∀ t, s.legacyComp = some t → nonIdentity t = true) (ds : List Bytes) :
     ∃ g : Bytes → Frame, (sendAll k reg (applySetSend reg ss o) ds).2 = ds.map g ∧
       ∀ d, d ≠ [] → ((g d).flag = 1 ↔ ∃ n, (applySetSend reg ss o).respEnc = some n ∧ nonIdentity n = true) := by
-  obtain ⟨hs, hsame, hc0, hI⟩ := serverOpen_consistent reg s h ss ho hleg
-  have hC := setSend_consistent reg ss o hs hsame hI hreg (by rw [hc0]; exact hx)
+  obtain ⟨hs, hsame, _, hI⟩ := serverOpen_consistent reg s h ss ho hleg
+  have hC := setSend_consistent reg ss o hs hsame hI hreg
   refine ⟨_, sendAll_frames k reg _ ds, ?_⟩
   intro d hd
   have hd' : (d != []) = true := by simpa using hd
   rw [prepareMsg_flag]
   obtain ⟨h1, _⟩ := hC
-  have huse : ((effV1 reg (applySetSend reg ss o)).isSome || (applySetSend reg ss o).compV0.isSome)
-      = (usedComp (applySetSend reg ss o).compV0 (effV1 reg (applySetSend reg ss o))).isSome := by
-    cases (effV1 reg (applySetSend reg ss o)) <;> cases (applySetSend reg ss o).compV0 <;> simp [usedComp]
+  have huse : ((effV1 reg (applySetSend reg ss o)).isSome || (effV0 (applySetSend reg ss o)).isSome)
+      = (usedComp (effV0 (applySetSend reg ss o)) (effV1 reg (applySetSend reg ss o))).isSome := by
+    cases (effV1 reg (applySetSend reg ss o)) <;> cases (effV0 (applySetSend reg ss o)) <;> simp [usedComp]
   rw [huse, h1, hd']
   unfold SrvStream.respEnc
   cases hn : nonIdentity (applySetSend reg ss o).sendCompress with
@@ -108,13 +108,9 @@ theorem flag_iff_encoding_counterexample_empty :
   rw [this] at h
   exact absurd (h.2 ⟨"c1", rfl, by decide⟩) (by decide)
 
-/-- F19 (genuine defect): RPCCompressor(c1) + SetSendCompressor("identity"): the response header says
-    grpc-encoding: identity, the message is compressed with c1 and flagged 1. -/
-theorem flag_iff_encoding_counterexample_legacy_identity :
-    (serverSide toy ["c1"] ⟨some "c1", none⟩ (some "identity") ⟨none, some "c1"⟩ [⟨0, [1]⟩] [[2]]).respHdr
-      = some (some "identity") ∧
-    (serverSide toy ["c1"] ⟨some "c1", none⟩ (some "identity") ⟨none, some "c1"⟩ [⟨0, [1]⟩] [[2]]).resps
-      = [⟨1, toy.comp "c1" [2]⟩] := by decide
+-- (`flag_iff_encoding_counterexample_legacy_identity` documented defect F34 — RPCCompressor(c1) +
+-- SetSendCompressor("identity") sent flag 1 under grpc-encoding: identity — before /repo 25f0536;
+-- the fixed behaviour is the last non-vacuity example below.)
 
 /-! ### clause 2: the server compresses only with what the client advertised or used -/
 
@@ -127,7 +123,7 @@ theorem server_only_advertised_or_used_partial (reg : List String) (s : Server) 
     n ∈ advertisedList (h.acc.getD "") ∨ h.enc = some n :=
   server_advertised_or_used reg s h ss o ho hl n he hn
 
-/-- F18 (genuine, documented behaviour of a deprecated option): with RPCCompressor(lz) the response is
+/-- F18 (known finding; documented behaviour of a deprecated option): with RPCCompressor(lz) the response is
     compressed with lz although the client advertised only c1 and sent uncompressed. -/
 theorem server_only_advertised_or_used_counterexample :
     (serverSide toy ["c1"] ⟨some "lz", none⟩ none ⟨none, some "c1"⟩ [⟨0, [1]⟩] [[2]]).respHdr = some (some "lz") ∧
@@ -271,26 +267,25 @@ theorem roundtrip_client_to_server (k : Codec) (hk : ∀ n d, k.decomp n (k.comp
 
 /-- Server → client round trip: a client that supports the response's encoding (registered or its
     WithDecompressor) receives every response message exactly as the handler sent it — under the
-    hypotheses of `flag_iff_encoding_server_partial` (in the F19 situation the client fails INTERNAL). -/
+    hypotheses of `flag_iff_encoding_server_partial`. -/
 theorem roundtrip_server_to_client (k : Codec) (hk : ∀ n d, k.decomp n (k.comp n d) = some d)
     (regS regC : List String) (s : Server) (h : ReqHdr) (ss : SrvStream) (o : Option String)
     (ho : serverOpen regS s h = .ok ss) (hreg : identity ∉ regS ∧ "" ∉ regS)
     (hleg : ∀ t, s.legacyComp = some t → nonIdentity t = true)
-    (hx : s.legacyComp = none ∨ o ≠ some identity)
     (c : Client) (accepted : List String) (r : CliRecv)
     (hi : clientRecvInit regC c accepted (applySetSend regS ss o).respEnc = .ok r)
     (hsup : nonIdentity r.ct = true → r.ct ∈ regC ∨ c.legacyDecomp = some r.ct) (d : Bytes) :
     r.recv k ((applySetSend regS ss o).send k regS d).2 = .ok d := by
-  obtain ⟨hs, hsame, hc0, hI⟩ := serverOpen_consistent regS s h ss ho hleg
-  obtain ⟨h1, h2⟩ := setSend_consistent regS ss o hs hsame hI hreg (by rw [hc0]; exact hx)
+  obtain ⟨hs, hsame, _, hI⟩ := serverOpen_consistent regS s h ss ho hleg
+  obtain ⟨h1, h2⟩ := setSend_consistent regS ss o hs hsame hI hreg
   obtain ⟨hct, hd0, hd1, hsel⟩ := clientRecvInit_ok regC c accepted _ r hi
   rw [send_frame]
   unfold CliRecv.recv
   generalize hss1 : applySetSend regS ss o = ss1 at *
-  cases hu : usedComp ss1.compV0 (effV1 regS ss1) with
+  cases hu : usedComp (effV0 ss1) (effV1 regS ss1) with
   | none =>
-    have : prepareMsg k ss1.compV0 (effV1 regS ss1) d = ⟨0, d⟩ := by
-      cases h0 : ss1.compV0 <;> cases h1' : effV1 regS ss1 <;> simp [usedComp, h0, h1'] at hu ⊢
+    have : prepareMsg k (effV0 ss1) (effV1 regS ss1) d = ⟨0, d⟩ := by
+      cases h0 : effV0 ss1 <;> cases h1' : effV1 regS ss1 <;> simp [usedComp, h0, h1'] at hu ⊢
       simp [prepareMsg, cNone]
     rw [this]; exact recvMsg_flag0 _ _ _ _ _ _
   | some n =>
@@ -301,12 +296,12 @@ theorem roundtrip_server_to_client (k : Codec) (hk : ∀ n d, k.decomp n (k.comp
     have hrct : r.ct = n := by rw [hct]; simp [SrvStream.respEnc, hne, hn]
     by_cases hd : d = []
     · subst hd
-      have : prepareMsg k ss1.compV0 (effV1 regS ss1) [] = ⟨0, []⟩ := by
-        cases h0 : ss1.compV0 <;> cases h1' : effV1 regS ss1 <;> simp [prepareMsg, cNone]
+      have : prepareMsg k (effV0 ss1) (effV1 regS ss1) [] = ⟨0, []⟩ := by
+        cases h0 : effV0 ss1 <;> cases h1' : effV1 regS ss1 <;> simp [prepareMsg, cNone]
       rw [this]; exact recvMsg_flag0 _ _ _ _ _ _
-    · have : prepareMsg k ss1.compV0 (effV1 regS ss1) d = ⟨1, k.comp r.ct d⟩ := by
+    · have : prepareMsg k (effV0 ss1) (effV1 regS ss1) d = ⟨1, k.comp r.ct d⟩ := by
         have hl : (d.length == 0) = false := by cases d <;> simp_all
-        cases h0 : ss1.compV0 <;> cases h1' : effV1 regS ss1 <;>
+        cases h0 : effV0 ss1 <;> cases h1' : effV1 regS ss1 <;>
           simp [usedComp, h0, h1'] at hu <;> simp [prepareMsg, cMade, hl, hrct, hu]
       rw [this]
       have hnir : nonIdentity r.ct = true := by rw [hrct, hn]; exact hni
@@ -331,5 +326,8 @@ example : serverOpen ["c1"] ⟨none, none⟩ ⟨some "c3", none⟩ = .error .uni
 example : (serverSide toy ["c1", "c2"] ⟨none, none⟩ (some "c2") ⟨some "c1", some "c1,c2"⟩ [⟨1, toy.comp "c1" [7]⟩] [[8], []]).resps
     = [⟨1, toy.comp "c2" [8]⟩, ⟨0, []⟩] := by decide
 example : clientSide toy ["c1"] ⟨none, none, none, none⟩ [] (some (some "c3")) [⟨0, [1]⟩, ⟨1, [2]⟩] .ok = (.internal, [[1]]) := by decide
+-- the former F34 situation, now consistent: identity in the header, flag 0, plain bytes
+example : (serverSide toy ["c1"] ⟨some "c1", none⟩ (some "identity") ⟨none, some "c1"⟩ [⟨0, [1]⟩] [[2]]).respHdr = some (some "identity") ∧
+    (serverSide toy ["c1"] ⟨some "c1", none⟩ (some "identity") ⟨none, some "c1"⟩ [⟨0, [1]⟩] [[2]]).resps = [⟨0, [2]⟩] := by decide
 
 end GrpcProofs.C27
